@@ -5,6 +5,7 @@ R2  enable/disable mirror each other over the three dependency lists; recorded c
 R3  registry pairing: every container of raw object pointers has an erase reachable from the pointee's destructor
 R4  atom reference counts balance
 R5  by-name look-ups are null-checked before use
+R9  release loops visit every element (no counting loop that also shrinks its container)
 """
 from . import expr as X
 from . import cond as C
@@ -523,7 +524,61 @@ def r8(F, rep):
     rep.count("bias_children_requirements", n)
 
 
+def r9(F, rep):
+    rep.rule("C13-R9", "release loops visit every element: a loop that deletes elements of a container either counts through it "
+                       "(index or iterator compared with size()/end(), container length untouched in the body) or drains it "
+                       "(condition on size()/empty() alone, body removes one element per turn); a loop that advances an index "
+                       "compared with V.size() AND removes elements of V stops half-way and leaks the rest (their atoms and "
+                       "dependencies are never released)")
+    shrinkers = ("pop_back", "erase", "pop_front")
+    n = 0
+    for f in F.funcs.values():
+        if "/src/" not in f.file or f.body is None:
+            continue
+        done = set()
+        for d in f.walk():
+            if d["k"] != "CXXDeleteExpr":
+                continue
+            loops = [a for a in f.ancestors(d) if a["k"] in ("ForStmt", "WhileStmt", "DoStmt", "CXXForRangeStmt")]
+            if not loops or loops[0]["i"] in done:
+                continue
+            L = loops[0]
+            done.add(L["i"])
+            n += 1
+            if L["k"] != "ForStmt" or L["c"][1] is None:
+                rep.add("C13-R9", "%s|%s" % (f.q, X.re_strip(X.key(X.kids(d)[0], f))[:40]), f.loc(L), "%s: %s around `delete %s`" % (
+                    f.q, {"WhileStmt": "drain/while loop", "DoStmt": "do loop", "CXXForRangeStmt": "range-for loop", "ForStmt": "for loop without condition"}[L["k"]],
+                    X.text(X.kids(d)[0], f)[:30]), True, func=f.q)
+                continue
+            cond, inc, body = L["c"][1], L["c"][2], L["c"][-1]
+            # container whose size bounds the counter
+            bound = None
+            for m in _walk13(cond):
+                if m["k"] == "CXXMemberCallExpr" and X.callee_name(m) in ("size", "end") and X.receiver(m) is not None:
+                    bound = X.key(X.receiver(m), f)
+            shr = [c for c in X.calls(f, body) if c["k"] == "CXXMemberCallExpr" and X.callee_name(c) in shrinkers and
+                   X.receiver(c) is not None and X.key(X.receiver(c), f) == bound]
+            # erase(it) whose result re-bases the iterator (it = v.erase(it)) keeps the loop complete
+            rebased = [c for c in shr if X.callee_name(c) == "erase" and any(a["k"] in ("BinaryOperator", "CXXOperatorCallExpr") and a.get("op") == "=" for a in f.ancestors(c))]
+            bad = bound is not None and inc is not None and [c for c in shr if c not in rebased]
+            rep.add("C13-R9", "%s|%s" % (f.q, X.re_strip(X.key(X.kids(d)[0], f))[:40]), f.loc(L),
+                    "%s: counting loop over `%s` around `delete %s`; the body %s" % (
+                        f.q, X.re_strip(bound or "?"), X.text(X.kids(d)[0], f)[:30],
+                        "also removes elements of it (%s): every removal skips one element" % ", ".join(X.callee_name(c) for c in shr) if bad else "leaves its length unchanged"),
+                    not bad, detail="the elements left behind are never deleted: their atom groups stay requested from the engine and their dependencies stay referenced", func=f.q)
+    if n < 12:
+        raise AnalysisBroken("C13-R9: only %d release loops found" % n)
+
+
+def _walk13(n):
+    yield n
+    for c in X.kids(n):
+        if c is not None:
+            yield from _walk13(c)
+
+
 def run(F, rep, tier):
+    r9(F, rep)
     r1(F, rep)
     r2(F, rep)
     r3(F, rep)
